@@ -259,7 +259,7 @@ func specRAKP4Input(st int, m1 *ipmi.RAKPMessage1, m2 *ipmi.RAKPMessage2) int {
 //@ assigns hashstate(h)
 //@ requires [hash.args] !isnil(h) && !isnil(rakpMessage1) && !isnil(rakpMessage2)
 //@ ensures [C02.rakp2-input] hIsDigest(result, old(specRAKP2Input(hState(h), rakpMessage1, rakpMessage2))) && len(result) == hSizeOf(h)
-//@ ensures [C02.rakp2-reset] hState(h) == hInit(h)
+//@ ensures [C01+C02.rakp2-reset] hState(h) == hInit(h)
 
 //@ func calculateRAKPMessage3AuthCode
 //@ props C01
@@ -273,7 +273,7 @@ func specRAKP4Input(st int, m1 *ipmi.RAKPMessage1, m2 *ipmi.RAKPMessage2) int {
 //@ assigns hashstate(h)
 //@ requires [hash.args] !isnil(h) && !isnil(rakpMessage1) && !isnil(rakpMessage2)
 //@ ensures [C02.rakp4-input] hIsDigest(result, old(specRAKP4Input(hState(h), rakpMessage1, rakpMessage2))) && len(result) == hSizeOf(h)
-//@ ensures [C02.rakp4-reset] hState(h) == hInit(h)
+//@ ensures [C01+C02.rakp4-reset] hState(h) == hInit(h)
 
 //@ func executeHash
 //@ props C01 C03
@@ -426,6 +426,9 @@ func specHMACInit(a ipmi.AuthenticationAlgorithm, key []byte) int {
 //@ props C01 C02 C12 C18
 //@ ensures [C18.frame] metricsOnly(commandAttempts, commandFailures, commandRetries, commandResponses)
 //@ requires [new.args] !isnil(s) && !isnil(s.V2Sessionless) && connValid(s.V2Sessionless) && !isnil(ctx) && !isnil(opts)
+//@ at openSession assert [C12.proposal] arg[*ipmi.OpenSessionReq](2).AuthenticationPayload.Algorithm == cipherSuite.AuthenticationAlgorithm && !arg[*ipmi.OpenSessionReq](2).AuthenticationPayload.Wildcard &&
+//@    arg[*ipmi.OpenSessionReq](2).IntegrityPayload.Algorithm == cipherSuite.IntegrityAlgorithm && !arg[*ipmi.OpenSessionReq](2).IntegrityPayload.Wildcard &&
+//@    arg[*ipmi.OpenSessionReq](2).ConfidentialityPayload.Algorithm == cipherSuite.ConfidentialityAlgorithm && !arg[*ipmi.OpenSessionReq](2).ConfidentialityPayload.Wildcard
 //@ at rakpMessage1 assert [C12.confirm] openSessionRsp.AuthenticationPayload.Algorithm == cipherSuite.AuthenticationAlgorithm && openSessionRsp.IntegrityPayload.Algorithm == cipherSuite.IntegrityAlgorithm &&
 //@    openSessionRsp.ConfidentialityPayload.Algorithm == cipherSuite.ConfidentialityAlgorithm
 //@ at rakpMessage1 assert [C01.rakp1-sent] arg[*ipmi.RAKPMessage1](2).ManagedSystemSessionID == openSessionRsp.ManagedSystemSessionID && arg[*ipmi.RAKPMessage1](2).MaxPrivilegeLevel == opts.MaxPrivilegeLevel &&
@@ -458,7 +461,7 @@ func specHMACInit(a ipmi.AuthenticationAlgorithm, key []byte) int {
 //@ ensures [C01+C02.sik-stored] result1 == nil ==> window(result0.SIK, sik, 0, len(sik))
 
 //@ func RetrieveSupportedCipherSuites
-//@ props C12 C16 C18
+//@ props C12 C16 C18 C05
 //@ invariant 0 [C16.index-inv] getChannelCipherSuitesCmd.Req.ListIndex <= 64 && getChannelCipherSuitesCmd.Req.Channel == ipmi.ChannelPresentInterface
 //@ invariant 0 [C16.full-so-far] getChannelCipherSuitesCmd.Req.ListIndex > 0 ==> len(getChannelCipherSuitesCmd.Rsp.CipherSuiteRecordsChunk) >= 16
 //@ decreases 0 65 - int(getChannelCipherSuitesCmd.Req.ListIndex)
@@ -550,6 +553,7 @@ func specHMACInit(a ipmi.AuthenticationAlgorithm, key []byte) int {
 //@ at mapupdate assert [C14.record-bytes] len(getSDRCmd.Rsp.Payload) >= 43 && arg[*ipmi.FullSensorRecord](2).Number == getSDRCmd.Rsp.Payload[2] && arg[*ipmi.FullSensorRecord](2).OwnerLUN == ipmi.LUN(getSDRCmd.Rsp.Payload[1]%4) &&
 //@    arg[*ipmi.FullSensorRecord](2).Linearisation == ipmi.Linearisation(getSDRCmd.Rsp.Payload[18]%128) && arg[*ipmi.FullSensorRecord](2).AnalogDataFormat == ipmi.AnalogDataFormat(getSDRCmd.Rsp.Payload[15]/64)
 //@ at store:RecordID assert [C14.stored-before-advance] header.Type == ipmi.RecordTypeFullSensor ==> hasKey(repo, header.ID) // the walk moves on from a Full Sensor Record only once it is in the result: no record is skipped
+//@ at fmt.Errorf assert [C14.length-refusal] arg[string](0) == "SDR length %d exceeds max of %d bytes: %v" ==> header.Length > 64 // a record is refused for its length only beyond the specification's maximum
 //@ ensures [C14.complete-walk] result1 == nil ==> getSDRCmd.Req.RecordID == ipmi.RecordIDLast // a walk that succeeds has followed the chain to its end (0xFFFF), whatever the order of the IDs
 //@ ensures [C14.no-partial] result1 != nil ==> isnil(result0)
 //@ ensures [C14.fresh-result] result1 == nil ==> isnewmap(result0) // a retried walk starts from an empty map: nothing of an abandoned walk survives
